@@ -16,12 +16,14 @@ def run_scenarios(ck, scenarios, name, timeout=3000):
         for line in f:
             e = json.loads(line)
             if e["ev"] == "scenario":
-                cur = {"scn": e.get("scn"), "report": e.get("report"), "dumps": [], "end": None, "error": e.get("error"), "id": e.get("id")}
+                cur = {"scn": e.get("scn"), "report": e.get("report"), "dumps": [], "end": None, "error": e.get("error"), "id": e.get("id"), "other": []}
                 runs.append(cur)
             elif e["ev"] == "dump":
                 cur["dumps"].append(e)
             elif e["ev"] == "end":
                 cur["end"] = e
+            elif cur is not None:
+                cur["other"].append(e)
     if len(runs) != len(scenarios):
         raise core.ToolError(f"{name}: {len(scenarios)} scenarios but {len(runs)} runs recorded")
     bad = [r for r in runs if r["error"]]
